@@ -1317,6 +1317,7 @@ def config_scope(name_or_scope):
     The resulting config scope (a list of all active scope names, ordered from
     outermost to innermost).
   """
+  scope_entered = False
   try:
     valid_value = True
     if isinstance(name_or_scope, list):
@@ -1331,6 +1332,7 @@ def config_scope(name_or_scope):
     # Append new_scope first. It will be popped in the finally block if an
     # exception is raised below.
     _SCOPE_MANAGER.enter_scope(new_scope)
+    scope_entered = True
 
     scopes_are_valid = map(config_parser.MODULE_RE.match, new_scope)
     if not valid_value or not all(scopes_are_valid):
@@ -1339,7 +1341,8 @@ def config_scope(name_or_scope):
 
     yield new_scope
   finally:
-    _SCOPE_MANAGER.exit_scope()
+    if scope_entered:  # Only undo what was done if an error occurred earlier.
+      _SCOPE_MANAGER.exit_scope()
 
 
 _FnOrClsOrSelector = Union[Callable[..., Any], Type[Any], str]
